@@ -324,23 +324,61 @@ theorem bare_lf_in_header (g : Cfg) (p : P) (tok : Bytes)
 
 /-- **Content-Length, also under chunked.** Whatever the Transfer-Encoding, accepted Content-Length fields all carry the
     same `[+-]?DIGIT+` value: `Transfer-Encoding: chunked` overrides the length but does not excuse garbage. -/
+theorem parseCLValue_lt (b : Bytes) (l : Int) (h : parseCLValue b = some l) : l < 2 ^ 62 := by
+  unfold parseCLValue at h
+  split at h
+  · rename_i r
+    cases hp : parseNat 10 isNum r with
+    | none => simp [hp] at h
+    | some n =>
+      have ⟨_, _, hn⟩ := parseNat_some _ _ _ _ hp
+      simp only [hp, Option.map_some, Option.some.injEq] at h
+      subst h
+      have : (n : Int) < 2 ^ 62 := by exact_mod_cast hn
+      simpa using this
+  · split at h
+    · rename_i n hp
+      cases h
+      have : (0 : Int) ≤ Int.ofNat n := Int.natCast_nonneg n
+      have h2 : (0 : Int) < 2 ^ 62 := by decide
+      omega
+    · split at h
+      · cases h
+        have h2 : (0 : Int) < 2 ^ 62 := by decide
+        omega
+      · cases h
+  · cases hp : parseNat 10 isNum b with
+    | none => simp [hp] at h
+    | some n =>
+      have ⟨_, _, hn⟩ := parseNat_some _ _ _ _ hp
+      simp only [hp, Option.map_some, Option.some.injEq] at h
+      subst h
+      have : (n : Int) < 2 ^ 62 := by exact_mod_cast hn
+      simpa using this
+
+/-- whatever framing is chosen, an accepted header section's Content-Length values all spell the same number, it
+    parses (`strconv.ParseInt(·, 10, 63)` shape), is non-negative and below 2^62 — "-5", "99999999999999999999",
+    "3, 4" are rejected also when `Transfer-Encoding: chunked` overrides the length -/
 theorem cl_accepted_any (p p' : P) (v : Bytes) (rest : List Bytes) (h : endOfHeaders p = .ok p')
     (hcl : p.cl = v :: rest) :
-    clShape (trimRightSpaces v) = true ∧ ∀ w ∈ rest, trimRightSpaces w = trimRightSpaces v := by
+    clShape (trimRightSpaces v) = true ∧ (∀ w ∈ rest, trimRightSpaces w = trimRightSpaces v) ∧
+      ∃ l : Int, parseCLValue (trimRightSpaces v) = some l ∧ 0 ≤ l ∧ l < 2 ^ 62 := by
   simp only [endOfHeaders, bind, Except.bind] at h
   split at h
   · cases h
   · rename_i q hq
     rcases parseTE_shape _ _ hq with ⟨_, e⟩ | ⟨w, _, _, hc, _⟩
     · subst e
-      rcases parseCL_shape _ _ h with ⟨h2, _⟩ | ⟨w, r, l, h1, h2, h3, _, _⟩
+      rcases parseCL_shape _ _ h with ⟨h2, _⟩ | ⟨w, r, l, h1, h2, h3, h4, _⟩
       · rw [hcl] at h2; cases h2
-      · rw [hcl] at h1; cases h1; exact ⟨parseCLValue_shape _ _ h3, h2⟩
+      · rw [hcl] at h1; cases h1
+        exact ⟨parseCLValue_shape _ _ h3, h2, l, h3, h4, parseCLValue_lt _ _ h3⟩
     · rcases hc with hc | ⟨q', hq'⟩
       · rw [hcl] at hc; cases hc
-      · rcases parseCL_shape _ _ hq' with ⟨h2, _⟩ | ⟨w, r, l, h1, h2, h3, _, _⟩
+      · rcases parseCL_shape _ _ hq' with ⟨h2, _⟩ | ⟨w, r, l, h1, h2, h3, h4, _⟩
         · rw [hcl] at h2; cases h2
-        · rw [hcl] at h1; cases h1; exact ⟨parseCLValue_shape _ _ h3, h2⟩
+        · rw [hcl] at h1; cases h1
+          exact ⟨parseCLValue_shape _ _ h3, h2, l, h3, h4, parseCLValue_lt _ _ h3⟩
 
 /-- **Chunk-size line grammar.** While the size token is being read, a byte that is neither a hex digit nor SP, HTAB,
     `;`, CR is an error; after the size and before any `;`, a byte other than SP, HTAB, `;`, CR is an error; a bare LF
